@@ -103,10 +103,10 @@ CHECKS["C19"] = dict(
 
 CHECKS["C09"] = dict(
     level_text="The solver proves, within the name-length bounds, the order lemma that turns 'pre-order walk over bytewise-sorted listings' into 'strictly ascending protocol order'; and the real NewFS/Walk/mkstat/setUnixOpt code is executed on model-FS trees whose names sort differently bytewise and path-wise, with symbolic metadata and every hard-link grouping: each entry once, root never, ascending protocol order, stat equal to lstat/readlink, first member of an inode group is the file and later members name it.",
-    level_note="Bounds: directory prefix <=2 (quick) / <=3 (thorough) bytes, sibling names 1..2 (quick) / 1..3 (thorough) bytes, one-byte tails. The induction over tree depth is a stated hand argument; filepath.WalkDir's pre-order/sorted contract is assumed. " + BASE_TRUST,
+    level_note="Bounds: directory prefix <=2 (quick) / <=3 (thorough) bytes, sibling names 1..3 bytes, one-byte tails. The induction over tree depth is a stated hand argument; filepath.WalkDir's pre-order/sorted contract is assumed. " + BASE_TRUST,
     assumptions=["os.ReadDir returns names sorted bytewise and filepath.WalkDir visits pre-order (stdlib contract)"],
     obligations=[
-        ob("VH_C09_order_lemma", dict(ND=2, NN=2), Q, covers=["done"], bounds="|d|<=2, sibling names 1..2 bytes"),
+        ob("VH_C09_order_lemma", dict(ND=2, NN=3), Q, covers=["done"], bounds="|d|<=2, sibling names 1..3 bytes"),
         ob("VH_C09_order_lemma", dict(ND=3, NN=3), T, covers=["done"], bounds="|d|<=3, sibling names 1..3 bytes"),
         ob("VH_C09_subdir", {}, covers=["done", "hardlink", "absolute-symlink"], bounds="two sub-roots with symbolic one-byte names, inner views {f, g in (none | hard link to f | absolute symlink | relative symlink)}"),
         ob("VH_C09_walk", {}, covers=["done", "hardlink", "hardlinked-symlink"], bounds="model-FS tree {a/, a/x, a-b, a.c, b?}: a-b regular/symlink/char device, every hard-link grouping of the regular files, symbolic permission bits/uid/gid"),
@@ -139,6 +139,8 @@ CHECKS["C20"] = dict(
         [ob("VH_C20_recv_arbitrary", dict(K=k), pkg=UTIL, covers=["rejected"] + (["accepted"] if k != 1 else []), bounds="RecvMsg on every stream of 4 arbitrary length bytes + %d arbitrary payload bytes (incl. hostile lengths up to 2^32-1)" % k) for k in (0, 1, 2, 3)] +
         [ob("VH_C20_recv_arbitrary", dict(K=4), T, pkg=UTIL, covers=["rejected", "accepted"], bounds="RecvMsg on every stream of 4 arbitrary length bytes + 4 arbitrary payload bytes"),
          ob("VH_C20_framing", dict(D1=0, D2=0, ID=0), pkg=UTIL, covers=["done"], bounds="2 packets (symbolic type, possibly empty), every fragmentation of the <=12 byte stream"),
+         ob("VH_C20_framing_big", dict(W=6), Q, pkg=UTIL, covers=["done"], bounds="a DATA packet of every encoded size 32762..32774 (the pooled 32 KiB buffer boundary, fixed payload pattern with symbolic first/last byte) before or after a small packet, unfragmented"),
+         ob("VH_C20_framing_big", dict(W=40), T, pkg=UTIL, covers=["done"], bounds="as above, every encoded size 32728..32808"),
          ob("VH_C20_framing", dict(D1=1, D2=0, ID=0), T, pkg=UTIL, covers=["done"], bounds="2 packets (1 and 0 data bytes), every fragmentation"),
          ob("VH_C20_framing", dict(D1=0, D2=0, ID=1), T, pkg=UTIL, covers=["done"], bounds="2 packets, the first with a symbolic id (1- and 5-byte varints), every fragmentation", max_paths=600000),
         ] + [
@@ -284,11 +286,14 @@ CHECKS["C11"] = dict(
 
 CHECKS["C16"] = dict(
     level_text="The real copy.Copy with include/exclude patterns is executed on the model file system: for every tree and pattern lists inside the bounds the set of paths created in the destination equals the set the real filtered Walk reports for the same tree (asserted unconditionally), equals the statement's naive reference selection outside the known incremental-matcher class, contains no directory without a selected descendant, and ancestors created on demand carry the source directory's mode and owner.",
-    level_note="Bounds: tree X/{P, Q/{R}}, Y with names drawn from {a, b, c} (siblings ascending), lists of up to 1+1 (quick) and 2+0 / 0+2 (quick) patterns from 12 templates, optionally a populated destination (thorough). " + FILTER_NOTE + FS_TRUST + BASE_TRUST,
+    level_note="Bounds: tree X/{P, Q/{R}}, Y with names drawn from {a, b, c} (siblings ascending), lists of up to 1+1 and 0+2 patterns from 12 templates over all trees, 1+2 / 2+1 (quick) and 2+2 (thorough) patterns on one concrete tree, optionally a populated destination (thorough). " + FILTER_NOTE + FS_TRUST + BASE_TRUST,
     assumptions=["names are concrete (model-FS keys), chosen by the solver from a three-letter alphabet"],
     obligations=[
         ob("VH_C16_select", dict(NI=1, NE=1), pkg=COPY, covers=["agreeing-class", "on-demand-ancestor"], bounds="<=1 include and <=1 exclude pattern"),
         ob("VH_C16_select", dict(NI=0, NE=2), pkg=COPY, covers=["agreeing-class", "incremental-class"], bounds="<=2 exclude patterns"),
+        ob("VH_C16_select", dict(NI=1, NE=2, FIX=1), pkg=COPY, covers=["agreeing-class", "incremental-class", "on-demand-ancestor"], bounds="<=1 include and <=2 exclude patterns on the concrete tree a/{a, b/{a}}, b"),
+        ob("VH_C16_select", dict(NI=2, NE=1, FIX=1), pkg=COPY, covers=["agreeing-class", "incremental-class", "on-demand-ancestor"], bounds="<=2 include and <=1 exclude patterns on the concrete tree"),
+        ob("VH_C16_select", dict(NI=2, NE=2, FIX=1), T, pkg=COPY, covers=["agreeing-class", "incremental-class"], bounds="<=2 include and <=2 exclude patterns on the concrete tree"),
         ob("VH_C16_select", dict(NI=2, NE=0), T, pkg=COPY, covers=["agreeing-class", "incremental-class"], bounds="<=2 include patterns"),
         ob("VH_C16_select", dict(NI=1, NE=1, POP=1), T, pkg=COPY, covers=["agreeing-class", "populated-destination"], bounds="populated destination"),
     ],
@@ -296,12 +301,12 @@ CHECKS["C16"] = dict(
 
 CHECKS["C17"] = dict(
     level_text="The real WriteTar walk closure and archive/tar.FileInfoHeader are executed symbolically over synthetic views; archive/tar.Writer is replaced by a recording writer that keeps the real writer's size bookkeeping. For every view inside the bounds the solver shows: members in walk order, directories with a trailing slash, type flag by entry class, link members with size 0 and no payload, a payload exactly when the entry is a regular non-link file of positive size and then exactly the view's bytes, mode/uid/gid/device numbers/mtime-to-the-second copied, xattrs as SCHILY.xattr records, and the archive closes cleanly.",
-    level_note="Bounds: view {d/, d/f (0..1 quick / 0..2 thorough symbolic bytes, optional xattr), h = hard link, l = symlink, p = fifo / char device with symbolic 12/8-bit device numbers}; permission bits symbolic on all entries, setuid/setgid/sticky symbolic on one entry per obligation; uid/gid symbolic below 2^21; mtimes from 2 values. The byte-level USTAR/PAX encoding, long names, ids beyond the octal field and extraction are trusted standard library behaviour (natively the sampled paths are written with the real writer and re-read with archive/tar.Reader). " + BASE_TRUST,
+    level_note="Bounds: view {d/, d/f (0..1 quick / 0..2 thorough symbolic bytes, optional xattr), h = hard link, l = symlink, p = fifo / char / block device with symbolic 12/8-bit device numbers, q = hard link to p}; permission bits symbolic on all entries, setuid/setgid/sticky symbolic on one entry per obligation; uid/gid symbolic below 2^21; mtimes from 2 values. The byte-level USTAR/PAX encoding, long names, ids beyond the octal field and extraction are trusted standard library behaviour (natively the sampled paths are written with the real writer and re-read with archive/tar.Reader). " + BASE_TRUST,
     assumptions=["view consistency: Size of a regular non-link entry equals the length of what Open yields", "archive/tar.Writer is a recording stand-in in the symbolic run"],
     obligations=[
-        ob("VH_C17_tar", dict(MAXB=1, SPECIAL=1), covers=["regular", "link", "xattr", "done"], bounds="files <=1 byte, special bits symbolic on d/f"),
-        ob("VH_C17_tar", dict(MAXB=2, SPECIAL=0), T, covers=["regular", "link", "xattr", "done"], bounds="files <=2 bytes, special bits symbolic on d"),
-        ob("VH_C17_tar", dict(MAXB=2, SPECIAL=2), T, covers=["regular", "link", "xattr", "done"], bounds="files <=2 bytes, special bits symbolic on the third entry"),
+        ob("VH_C17_tar", dict(MAXB=1, SPECIAL=1), covers=["regular", "link", "xattr", "hardlinked-special", "done"], bounds="files <=1 byte, special bits symbolic on d/f"),
+        ob("VH_C17_tar", dict(MAXB=2, SPECIAL=0), T, covers=["regular", "link", "xattr", "hardlinked-special", "done"], bounds="files <=2 bytes, special bits symbolic on d"),
+        ob("VH_C17_tar", dict(MAXB=2, SPECIAL=2), T, covers=["regular", "link", "xattr", "hardlinked-special", "done"], bounds="files <=2 bytes, special bits symbolic on the third entry"),
     ],
 )
 
